@@ -5179,8 +5179,10 @@ class DecRule:
     def fit_depend(self):
 
         # random variables may have been declared after the first adapt() call
+        if self.depend is None:
+            return
         num_rand = self.model.sup_model.vars[-1].last
-        if self.depend is not None and self.depend.shape[1] < num_rand:
+        if self.depend.shape[1] < num_rand:
             extra = np.zeros((self.size, num_rand - self.depend.shape[1]),
                              dtype=int)
             self.depend = np.concatenate((self.depend, extra), axis=1)
